@@ -10,7 +10,7 @@ RULE = ('every clause body tree with <= N operators from , ; -> \\+ over the 8 l
         'c(..,Z):-m(Z),p(..). plus a dynamic fact p(7..), in 6 context variants: with / without a two-solution goal to '
         'the LEFT of the body x 0, 1 or 2 goals to its RIGHT (thorough, 3 operators: 2 of the 6 variants; and a second '
         'script adding p(6..) without overwrite); compiled, loaded into a fresh engine, query c(A1..Ak,Z) run twice '
-        'and compared answer by answer with RefProlog; plus every body with N+1 operators over the cut-focused leaves {! m(Vi) z} (2 context variants; thorough 1); plus cuts behind a head that may not match: every pair of the 13 head-argument shapes (repeated variables, constants, structures, lists) x every body of <= 1 operator over {! o m fail} with a cut, followed by a catch-all clause, queried with every pair of 6 argument shapes. states = distinct answer sequences; '
+        'and compared answer by answer with RefProlog; plus every body with N+1 operators over the cut-focused leaves {! m(Vi) z} (2 context variants; thorough 1); plus tables of N clauses that each end in (or start with) a cut, followed by a catch-all clause, for 20 values of N up to 130; plus cuts behind a head that may not match: every pair of the 13 head-argument shapes (repeated variables, constants, structures, lists) x every body of <= 1 operator over {! o m fail} with a cut, followed by a catch-all clause, queried with every pair of 6 argument shapes. states = distinct answer sequences; '
         'transitions = next() calls on the real engine; non-trivial = at least one answer')
 ASSUMPTIONS = ['RefProlog (mc/refprolog.py) implements standard cut semantics',
                'cuts in the condition of -> or under \\+ are outside the property and skipped',
@@ -24,7 +24,7 @@ def bounds(tier):
 def plan(tier):
     maxops = 2 if tier == 'quick' else 3
     return ([(k, treecheck.NSHARDS, maxops, tier) for k in range(treecheck.NSHARDS)] + [('heads', k, 32, tier) for k in range(32)]
-            + [('focus', k, 32, tier) for k in range(32)])
+            + [('focus', k, 32, tier) for k in range(32)] + [('wide', k, 8, tier) for k in range(8)])
 
 
 # ---- deeper bodies over a cut-focused alphabet ----------------------------------------------
@@ -111,6 +111,48 @@ def has_leaf(t, kind):
     return any(has_leaf(c, kind) for c in t[1:])
 
 
+# ---- wide predicates --------------------------------------------------------------------------
+# "the later clauses of the same predicate definition", however many there are: tables of N clauses
+# each ending in (or starting with) a cut, followed by a catch-all clause, called through a caller
+# that has alternatives of its own
+WIDE_N = (1, 2, 3, 5, 8, 15, 16, 17, 31, 32, 33, 34, 63, 64, 65, 66, 100, 128, 129, 130)
+
+
+def wide_cases():
+    from ..diff import Case
+    from ..terms import F, A, V, call, CUT
+    idx = 0
+    for n in WIDE_N:
+        for style in ('trailing-cut', 'leading-cut'):
+            cl = []
+            for i in range(1, n + 1):
+                if style == 'trailing-cut':
+                    cl.append((F('tab', A('k%d' % i), A('v%d' % i)), CUT))
+                else:
+                    cl.append((F('tab', A('k%d' % i), V('Val')), (',', CUT, call(F('=', V('Val'), A('v%d' % i))))))
+            cl.append((F('tab', ('v', ('_', 1)), A('default')), None))
+            cl.append((F('c', V('K'), V('Val'), V('Z')), (',', call(F('m', V('Z'))), call(F('tab', V('K'), V('Val'))))))
+            qs = [F('c', A('k1'), V('A'), V('B')), F('c', A('k%d' % n), V('A'), V('B')), F('c', A('k%d' % ((n + 1) // 2)), V('A'), V('B')),
+                  F('c', A('nokey'), V('A'), V('B')), F('c', V('Kq'), V('A'), V('B')), F('c', V('Kq'), A('default'), V('B'))]
+            yield idx, '%s-%d' % (style, n), Case([(bodies.LEAF_PROGRAM, True, True), (cl, True, False)], [], qs, repeat=1, ref_steps=60000, budget=True)
+            idx += 1
+
+
+def run_wide(spec):
+    from ..diff import account
+    from ..runner import Acc
+    _, k, n, tier = spec
+    acc = Acc()
+    for idx, name, case in wide_cases():
+        if idx % n != k:
+            continue
+        res = case.run()
+        if res['status'] == 'violation':
+            res['sig'] = 'wide-predicate:' + res['sig']
+        account(acc, ('W', idx), case, res, key=name)
+    return acc
+
+
 def select(t):
     tr, op = bodies.cut_positions(t)
     if op:
@@ -127,6 +169,8 @@ def run_shard(spec):
         return run_heads(spec)
     if spec[0] == 'focus':
         return run_focus(spec)
+    if spec[0] == 'wide':
+        return run_wide(spec)
     k, n, maxops, tier = spec
     # context variants: a goal with alternatives to the left of the body (the cut must discard
     # them) and 0, 1 or 2 goals to its right (they must still backtrack)
